@@ -61,4 +61,13 @@ Section FE.
   (* dense read-out used by the correspondence *)
   Definition dense_of_rows (N : nat) (M : list (list (nat * R))) : list (list R) :=
     map (fun r => map (fun j => dense_entry o r j) (seq 0 N)) M.
+
+  (* COO triplets of ANY family of local matrices K e i j / local load vectors L e i over a local-to-global map
+     (the order of BilinearForm._assemble / LinearForm._assemble); mass_coo / load_coo are the instances above *)
+  Definition local_coo (ne nl : nat) (g : nat -> nat -> nat) (K : nat -> nat -> nat -> R) : list (nat * nat * R) :=
+    flat_map (fun j => flat_map (fun i => map (fun e => (g e i, g e j, K e i j)) (seq 0 ne)) (seq 0 nl)) (seq 0 nl).
+  Definition local_load_coo (ne nl : nat) (g : nat -> nat -> nat) (L : nat -> nat -> R) : list (nat * R) :=
+    flat_map (fun i => map (fun e => (g e i, L e i)) (seq 0 ne)) (seq 0 nl).
+  Definition assembled_matrix (N ne nl : nat) g K := coo_rows N (local_coo ne nl g K).
+  Definition assembled_vector (N ne nl : nat) g L := coo_vec N (local_load_coo ne nl g L).
 End FE.
